@@ -25,7 +25,33 @@ fn zero_stake_scenarios() {
     assert!(!is_lottery_won(0.2, [0xffu8; 64], 1000, 1000), "the largest draw wins");
 }
 
+/// a smaller draw value never turns won into lost: scan the 512-bit draw space from the most significant byte down, refining
+/// around the flip for 8 byte levels; at every level the 256 sampled draws (in increasing order) must read won...won lost...lost
+fn draw_monotone_scenarios() {
+    for (phi_f, stake, total) in [(0.2, 1u64, 10u64), (0.05, 333, 1000), (0.65, 1, 3), (0.999, 999, 1000), (0.000001, 1, u64::MAX), (0.5, u64::MAX - 1, u64::MAX)] {
+        let mut prefix: Vec<u8> = vec![];          // most significant bytes fixed so far (big-endian order)
+        for _level in 0..8 {
+            let mut last_won: Option<u8> = None;
+            let mut seen_lost = false;
+            for b in 0..=255u8 {
+                let mut ev = [0u8; 64];
+                for (i, p) in prefix.iter().enumerate() { ev[63 - i] = *p; }
+                ev[63 - prefix.len()] = b;
+                let won = is_lottery_won(phi_f, ev, stake, total);
+                if won {
+                    assert!(!seen_lost, "the lottery FLIPS from lost to won when the draw value GROWS (phi_f = {}, stake = {}/{}, most significant bytes {:?} then {})", phi_f, stake, total, prefix, b);
+                    last_won = Some(b);
+                } else {
+                    seen_lost = true;
+                }
+            }
+            // continue inside the last won bucket (the flip is in there or right after it); all won or all lost: nothing finer to see
+            match last_won { Some(b) if seen_lost => prefix.push(b), _ => break }
+        }
+    }
+}
+
 #[test]
-fn replay_is_lottery_won() { zero_stake_scenarios() }
+fn replay_is_lottery_won() { zero_stake_scenarios(); draw_monotone_scenarios() }
 #[test]
-fn replay_taylor_comparison() { zero_stake_scenarios() }
+fn replay_taylor_comparison() { zero_stake_scenarios(); draw_monotone_scenarios() }
